@@ -45,11 +45,16 @@ class _G(object):
     return self.gr.dead
 
 
+def Event():
+  """What `Event()` inside scales.timer_queue evaluates to."""
+  return cur().make_event()
+
+
 class VEvent(object):
-  def __init__(self):
+  def __init__(self, world):
     self._flag = False
-    self.world = cur()
-    self.world.events.append(self)
+    self.world = world
+    world.events.append(self)
 
   def set(self):
     self._flag = True
@@ -81,13 +86,10 @@ class _GeventProxy(object):
     return cur().spawn(fn, args, kwargs)
 
   def sleep(self, seconds=0, ref=True):
-    w = cur()
-    if seconds <= 0:
-      return w.park('sleep0', None, None)
-    return w.park('sleepn', w.now + seconds, None)
+    return cur().sleep(seconds)
 
   def idle(self, priority=0):
-    return cur().park('sleep0', None, None)
+    return cur().sleep(0)
 
 
 class _TimeProxy(object):
@@ -105,7 +107,7 @@ TIME = _TimeProxy()
 
 def install(tq_module):
   tq_module.gevent = GEVENT
-  tq_module.Event = VEvent
+  tq_module.Event = Event
   tq_module.time = TIME
 
 
@@ -131,7 +133,17 @@ class World(object):
     return self.now
 
   # ---- called from inside the code under test -------------------------------------------------
+  def make_event(self):
+    return VEvent(self)
+
+  def sleep(self, seconds):
+    if seconds <= 0:
+      return self.park('sleep0', None, None)
+    return self.park('sleepn', self.now + seconds, None)
+
   def spawn(self, fn, args, kwargs):
+    if not callable(fn):
+      raise TypeError('The run argument or attribute must be callable')      # as gevent.spawn does
     g = _G(self, fn, args, kwargs)
     if self.worker is None:
       self.worker = g
@@ -213,5 +225,117 @@ class World(object):
     for g in self.fifo:
       self.kill(g)
     self.fifo = []
+    if _CUR[0] is self:
+      _CUR[0] = None
+
+
+# ------------------------------------------------------------------------------------------------
+# Second world: the REAL gevent hub, Event and spawn; only time is virtual.  Used for end-to-end runs
+# that are checked by the monitor alone (they validate the Event/sleep/spawn contract assumed above
+# against the installed gevent).
+# ------------------------------------------------------------------------------------------------
+class RealWorld(object):
+  def __init__(self, t0=0.0):
+    import heapq
+    import itertools
+    self._heapq = heapq
+    self.now = t0
+    self.timers = []
+    self._n = itertools.count()
+    self.worker = None
+    self.on_spawn = None
+    self.greenlets = []
+
+  def activate(self):
+    _CUR[0] = self
+    return self
+
+  def time(self):
+    return self.now
+
+  def call_at(self, t, fn):
+    ent = [t, next(self._n), fn]
+    self._heapq.heappush(self.timers, ent)
+    return ent
+
+  def make_event(self):
+    import gevent.event
+    world = self
+
+    class RealVEvent(gevent.event.Event):
+      def wait(self, timeout=None):
+        if timeout is None:
+          return gevent.event.Event.wait(self)
+        if self.is_set():
+          return True
+        woke = gevent.event.Event()
+        by = []
+
+        def on_timer():
+          by.append('timeout')
+          woke.set()
+
+        def on_set(_):
+          by.append('event')
+          woke.set()
+        ent = world.call_at(world.now + timeout, on_timer)
+        self.rawlink(on_set)
+        woke.wait()
+        self.unlink(on_set)
+        ent[2] = None
+        return by[0] == 'event'        # gevent: True iff the wait was ended by set(), not by the time-out
+    return RealVEvent()
+
+  def sleep(self, seconds):
+    import gevent
+    import gevent.event
+    if seconds <= 0:
+      return gevent.sleep(0)
+    e = gevent.event.Event()
+    self.call_at(self.now + seconds, e.set)
+    e.wait()
+
+  def spawn(self, fn, args, kwargs):
+    import gevent
+    if self.worker is None:
+      self.worker = gevent.spawn(fn, *args, **kwargs)
+      return self.worker
+    if self.on_spawn:
+      self.on_spawn(fn)
+    g = gevent.spawn(fn, *args, **kwargs)
+    self.greenlets.append(g)
+    return g
+
+  # ---- driver side ----
+  def yield_once(self):
+    import gevent
+    gevent.sleep(0)
+
+  def settle(self):
+    import gevent
+    gevent.idle()
+
+  def advance_to(self, t, on_time=None):
+    self.settle()
+    while self.timers and self.timers[0][0] <= t:
+      at, _n, fn = self._heapq.heappop(self.timers)
+      if fn is None:
+        continue
+      if at > self.now:
+        self.now = at
+        if on_time:
+          on_time()
+      fn()
+      self.settle()
+    if t > self.now:
+      self.now = t
+      if on_time:
+        on_time()
+    self.settle()
+
+  def close(self):
+    import gevent
+    gs = [g for g in [self.worker] + self.greenlets if g is not None]
+    gevent.killall(gs, block=True)
     if _CUR[0] is self:
       _CUR[0] = None
